@@ -81,6 +81,8 @@ def main():
                 t0 = time.time()
                 env = dict(os.environ, NLVERIF_REPO=wt)
                 r = subprocess.run([os.path.join(V, "check"), c, "--tier", tier], cwd=V, capture_output=True, text=True, env=env, timeout=7200)
+                if r.returncode == 2:       # inconclusive (watchdog / load): re-run once before believing it
+                    r = subprocess.run([os.path.join(V, "check"), c, "--tier", tier], cwd=V, capture_output=True, text=True, env=env, timeout=7200)
                 keys = re.findall(r"^  key: (.*)$", r.stdout, re.M)
                 res = "caught" if r.returncode == 1 else "inconclusive" if r.returncode == 2 else "MISSED"
                 meta["checks"][c] = {"tier": tier, "exit": r.returncode, "result": res, "keys": keys[:8], "wall_s": round(time.time() - t0)}
